@@ -14,6 +14,8 @@ pub mod verif_native {
         u64::from_str_radix(t, 16).unwrap_or_else(|_| s.parse::<u64>().expect("number"))
     }
     fn fb(s: &str) -> f32 { f32::from_bits(hx(s) as u32) }
+    /// decimal index / count argument
+    fn ix(s: &str) -> usize { s.parse::<usize>().expect("decimal index") }
     fn out(v: bool, detail: String) {
         let d = detail.replace('\\', "/").replace('"', "'");
         println!("{{\"violates\": {}, \"detail\": \"{}\"}}", v, d);
